@@ -178,8 +178,16 @@ class Option(Evaluatable[A]):
             _ = self.evaluate(options)
         elif self.default is not MISSING:
             self.default.validate(options)
+            if self.domain is not MISSING:
+                self.domain.validate(options)
         else:
             raise KeyNotFoundError(self.key, self)
+
+    def _domain_keys(self, options: Options) -> Set[str]:
+        return set() if self.domain is MISSING else self.domain.keys(options)
+
+    def _domain_explain(self, options: Options) -> Set[str]:
+        return set() if self.domain is MISSING else self.domain.explain(options)
 
     def keys(self, options: Options) -> Set[str]:
         """Returns the keys required by the option.
@@ -192,11 +200,15 @@ class Option(Evaluatable[A]):
         if dotted_key_exists(self.key, options):
             value = get_dotted_key(self.key, options)
             if isinstance(value, str):
-                return {self.key} | Template(value).keys(options)
+                return (
+                    {self.key}
+                    | Template(value).keys(options)
+                    | self._domain_keys(options)
+                )
             else:
-                return {self.key}
+                return {self.key} | self._domain_keys(options)
         elif self.default is not MISSING:
-            return self.default.keys(options)
+            return self.default.keys(options) | self._domain_keys(options)
         else:
             raise KeyNotFoundError(self.key, self)
 
@@ -206,13 +218,17 @@ class Option(Evaluatable[A]):
         if dotted_key_exists(self.key, options):
             value = get_dotted_key(self.key, options)
             if isinstance(value, str):
-                return {self.key} | Template(value).explain(options)
+                return (
+                    {self.key}
+                    | Template(value).explain(options)
+                    | self._domain_explain(options)
+                )
             else:
-                return {self.key}
+                return {self.key} | self._domain_explain(options)
         elif self.default is not MISSING:
-            return self.default.explain(options)
+            return self.default.explain(options) | self._domain_explain(options)
         else:
-            return {self.key}
+            return {self.key} | self._domain_explain(options)
 
     def __repr__(self) -> str:
         return (
